@@ -18,6 +18,7 @@ namespace sim {
 struct ImplRun {
   std::string outcome, errtext, out; std::map<std::string, std::string> store; std::string residue;
   long steps = 0; bool budget_exceeded = false; bool parsed = true; std::string parse_error;
+  std::string constants;    // set when the text unparsed from an executable differs before and after its run
   std::string uniform;      // first container uniformity violation seen at any statement boundary
   std::string constraint;   // first violated type constraint ('$' names, loop iterators) seen at any step
 };
@@ -74,8 +75,12 @@ inline ImplRun impl_run(const std::vector<std::string>& units, const std::vector
       else {
         exes.push_back(exe);
         ctx.returnCondition(false);
+        auto unparse = [&]() { char* buf = nullptr; size_t sz = 0; FILE* m = open_memstream(&buf, &sz); exe->unparse(m); fclose(m); std::string t(buf, sz); free(buf); return t; };
+        std::string before = unparse();
         Outcome ro = run_exe(exe);
         if (!ro.ok()) { oc = ro.str(); r.errtext = ro.text; }
+        // running a program never changes the constants of its text
+        if (r.constants.empty()) { std::string after = unparse(); if (after != before) { size_t i = 0; while (i < after.size() && i < before.size() && after[i] == before[i]) ++i; size_t b = i > 40 ? i - 40 : 0; r.constants = "'" + printable(before.substr(b, 90), 130) + "' became '" + printable(after.substr(b, 90), 130) + "'"; } }
         ctx.returnCondition(false);
         delete ctx.dropReturned();
       }
@@ -95,8 +100,9 @@ inline ImplRun impl_run(const std::vector<std::string>& units, const std::vector
 }
 
 // first difference between the implementation and the model ("" when they agree)
+inline std::string normalise_outcome(std::string o) { size_t p; while ((p = o.find("parse_error(")) != std::string::npos) { size_t e = o.find(')', p); o.replace(p, e - p + 1, "parse_error"); } return o; }
 inline std::string compare_with_model(const ImplRun& im, const RResult& rr, bool compare_store = true) {
-  if (im.outcome != rr.outcome) return "outcome " + im.outcome + " (" + im.errtext + ") vs model " + rr.outcome;
+  if (normalise_outcome(im.outcome) != normalise_outcome(rr.outcome)) return "outcome " + im.outcome + " (" + im.errtext + ") vs model " + rr.outcome;
   if (im.out != rr.out) {
     size_t i = 0; while (i < im.out.size() && i < rr.out.size() && im.out[i] == rr.out[i]) ++i;
     size_t b = i > 30 ? i - 30 : 0;
